@@ -1,9 +1,17 @@
 #!/usr/bin/env python3
 """Regenerates coq/theories/Params.v from the constants in /repo's *current* sources.
 
-A deliberately tiny translator: every constant the theorems depend on is read with an anchored
-regular expression.  A pattern that no longer matches is reported (exit 2) — the tie between
-model and code is then broken and the caller turns that into a VIOLATION line."""
+A deliberately small translator.  Every constant the theorems depend on is located BY NAME (a
+`const NAME: T = <expr>;` item anywhere in chitchat/src, an enum variant `Variant = <expr>` of a
+named enum) or, for the few literals that have no name, by an anchored pattern at the code site
+that uses them; the right-hand side is then EVALUATED (decimal / hex / binary literals with or
+without `_` and type suffixes, `+ - * /`, parentheses, `as T` casts, `T::MAX`, `size_of::<T>()`,
+`usize::from(..)`, references to other named constants of the crate, followed recursively).  So the
+usual harmless rewrites of a constant (another spelling of the literal, an expression of other
+constants, moving it to another module, naming a tag) regenerate the same Params.v.
+
+A constant that can no longer be found or evaluated is reported (exit 2) — the tie between model
+and code is then broken and the caller turns that into a VIOLATION line."""
 import os
 import re
 import sys
@@ -13,90 +21,332 @@ SRC = os.path.join(REPO, "chitchat", "src")
 OUT = os.path.join(os.path.dirname(os.path.abspath(__file__)), "..", "coq", "theories", "Params.v")
 
 
-def num(text):
-    return int(text.replace("_", "").rstrip("u8").rstrip("u16").rstrip("usize").rstrip("u64").rstrip("f64").rstrip("."))
+class Unresolved(Exception):
+    pass
 
 
-def clean_int(tok):
-    tok = tok.replace("_", "")
-    m = re.match(r"^(\d+)", tok)
-    if not m:
-        raise ValueError(tok)
-    return int(m.group(1))
+def all_sources():
+    out = {}
+    for root, _dirs, files in os.walk(SRC):
+        for fn in sorted(files):
+            if fn.endswith(".rs") and fn != "verif.rs":
+                p = os.path.join(root, fn)
+                with open(p) as f:
+                    out[os.path.relpath(p, SRC)] = strip_comments(f.read())
+    return out
 
 
-# (name, file, regex with one group (or several alternatives), description)
-PATTERNS = [
-    ("P_MAX_UDP", "lib.rs", r"const MAX_UDP_DATAGRAM_PAYLOAD_SIZE: usize = ([0-9_]+);"),
-    ("P_GC_HISTORY", "lib.rs", r"const GARBAGE_COLLECTED_NODE_HISTORY_SIZE: NonZeroUsize =\s*NonZeroUsize::new\(([0-9_]+)\)"),
-    ("P_BLOCK_META_LEN", "serialize.rs", r"const BLOCK_META_LEN: usize = ([0-9_]+);"),
-    ("P_BLOCK_THRESHOLD", "delta.rs", r"const BLOCK_THRESHOLD: u16 = ([0-9_]+)u16;"),
-    ("P_BLOCK_THRESHOLD_SER", "delta.rs", r"CompressedStreamWriter::with_block_threshold\(([0-9_]+)\);\s*for op in self\.get_operations\(\)"),
-    ("P_MIN_MTU", "delta.rs", r"pub fn with_mtu\(mtu: usize\) -> Self \{\s*assert!\(mtu >= ([0-9_]+)\);"),
-    ("P_MAGIC", "message.rs", r"const MAGIC_NUMBER: u16 = ([0-9_]+);"),
-    ("P_PROTOCOL_VERSION", "message.rs", r"enum ProtocolVersion \{\s*V0 = ([0-9_]+),"),
-    ("P_TAG_SYN", "message.rs", r"enum MessageType \{\s*Syn = ([0-9_]+),"),
-    ("P_TAG_SYNACK", "message.rs", r"SynAck = ([0-9_]+)u8,"),
-    ("P_TAG_ACK", "message.rs", r"\n\s*Ack = ([0-9_]+)u8,"),
-    ("P_TAG_BADCLUSTER", "message.rs", r"BadCluster = ([0-9_]+)u8,"),
-    ("P_OP_NODE", "delta.rs", r"enum DeltaOpTag \{\s*Node = ([0-9_]+)u8,"),
-    ("P_OP_KV", "delta.rs", r"KeyValue = ([0-9_]+)u8,"),
-    ("P_OP_SETMAX", "delta.rs", r"SetMaxVersion = ([0-9_]+)u8,"),
-    ("P_ST_SET", "types.rs", r"pub enum DeletionStatusMutation \{\s*Set = ([0-9_]+)u8,"),
-    ("P_ST_DELETE", "types.rs", r"\n\s*Delete = ([0-9_]+)u8,"),
-    ("P_ST_TTL", "types.rs", r"\n\s*DeleteAfterTtl = ([0-9_]+)u8,"),
-    ("P_GOSSIP_COUNT", "server.rs", r"const GOSSIP_COUNT: usize = ([0-9_]+);"),
-    ("P_PRIOR_WEIGHT", "failure_detector.rs", r"prior_weight: ([0-9_]+)\.0f64,"),
-    ("P_DECOMPRESS_CAP", "serialize.rs", r"let mut decompressed_buffer = vec!\[0; (u16::MAX) as usize\];"),
+def strip_comments(text):
+    text = re.sub(r"/\*.*?\*/", " ", text, flags=re.S)
+    return re.sub(r"//[^\n]*", "", text)
+
+
+INT_TYPES = {"u8": 8, "u16": 16, "u32": 32, "u64": 64, "usize": 64, "i8": 8, "i16": 16, "i32": 32, "i64": 64, "isize": 64}
+SIZE_OF = {"u8": 1, "i8": 1, "u16": 2, "i16": 2, "u32": 4, "i32": 4, "f32": 4, "u64": 8, "i64": 8, "f64": 8, "usize": 8, "isize": 8}
+
+
+class Evaluator:
+    def __init__(self, sources):
+        self.sources = sources
+        self.stack = []
+
+    # ---- lookup of named constants -------------------------------------------------------
+    def const_expr(self, name, prefer=None):
+        rx = re.compile(r"\bconst\s+" + re.escape(name) + r"\s*:\s*[^=;]+?=\s*([^;]+);")
+        hits = []
+        files = list(self.sources)
+        if prefer in self.sources:
+            files.remove(prefer)
+            files.insert(0, prefer)
+        for fn in files:
+            for m in rx.finditer(self.sources[fn]):
+                hits.append((fn, m.group(1).strip()))
+        if not hits:
+            raise Unresolved(f"no `const {name}: .. = ..;` in chitchat/src")
+        exprs = {e for _f, e in hits}
+        if len(exprs) > 1:
+            vals = set()
+            for fn, e in hits:
+                vals.add(self.eval(e, fn))
+            if len(vals) > 1:
+                raise Unresolved(f"several different constants named {name}: {sorted(hits)}")
+        return hits[0]
+
+    def const(self, name, prefer=None):
+        if name in self.stack:
+            raise Unresolved(f"cyclic constant {name}")
+        self.stack.append(name)
+        try:
+            fn, expr = self.const_expr(name, prefer)
+            return self.eval(expr, fn)
+        finally:
+            self.stack.pop()
+
+    def variant(self, enum, variant, fname):
+        text = self.sources.get(fname, "")
+        m = re.search(r"\benum\s+" + re.escape(enum) + r"\s*\{(.*?)\n\}", text, flags=re.S)
+        if not m:
+            # the enum may have moved
+            for fn, t in self.sources.items():
+                m = re.search(r"\benum\s+" + re.escape(enum) + r"\s*\{(.*?)\n\}", t, flags=re.S)
+                if m:
+                    fname = fn
+                    break
+        if not m:
+            raise Unresolved(f"enum {enum} not found")
+        body = m.group(1)
+        m2 = re.search(r"\b" + re.escape(variant) + r"\s*=\s*([^,}]+)[,}\n]", body)
+        if not m2:
+            raise Unresolved(f"variant {enum}::{variant} has no explicit discriminant")
+        return self.eval(m2.group(1).strip(), fname)
+
+    # ---- expressions ---------------------------------------------------------------------
+    def eval(self, expr, fname=None):
+        toks = self.tokenize(expr)
+        pos = [0]
+
+        def peek():
+            return toks[pos[0]] if pos[0] < len(toks) else None
+
+        def take(t=None):
+            x = peek()
+            if x is None or (t is not None and x != t):
+                raise Unresolved(f"cannot evaluate `{expr}` (at token {x!r}, expected {t!r})")
+            pos[0] += 1
+            return x
+
+        def primary():
+            x = take()
+            if isinstance(x, (int, float)):
+                v = x
+            elif x == "(":
+                v = addsub()
+                take(")")
+            elif x == "-":
+                v = -primary()
+            elif isinstance(x, str) and re.match(r"^[A-Za-z_]", x):
+                path = [x]
+                while peek() == "::":
+                    take("::")
+                    if peek() == "<":            # turbofish: size_of::<T>
+                        take("<")
+                        ty = take()
+                        take(">")
+                        path.append("<" + ty + ">")
+                    else:
+                        path.append(take())
+                v = self.path_value(path, peek, take, addsub, fname, expr)
+            else:
+                raise Unresolved(f"cannot evaluate `{expr}` (unexpected {x!r})")
+            while peek() == "as":
+                take("as")
+                ty = take()
+                if ty in INT_TYPES and isinstance(v, float):
+                    v = int(v)
+                elif ty in ("f32", "f64"):
+                    v = float(v)
+            return v
+
+        def muldiv():
+            v = primary()
+            while peek() in ("*", "/", "%"):
+                op = take()
+                w = primary()
+                if op == "*":
+                    v = v * w
+                elif op == "/":
+                    v = v // w if isinstance(v, int) and isinstance(w, int) else v / w
+                else:
+                    v = v % w
+            return v
+
+        def addsub():
+            v = muldiv()
+            while peek() in ("+", "-"):
+                op = take()
+                w = muldiv()
+                v = v + w if op == "+" else v - w
+            return v
+
+        v = addsub()
+        if peek() is not None:
+            raise Unresolved(f"cannot evaluate `{expr}` (trailing {peek()!r})")
+        return v
+
+    def path_value(self, path, peek, take, addsub, fname, expr):
+        last = path[-1]
+        # T::MAX, T::MIN, T::BITS
+        if len(path) >= 2 and path[-2] in INT_TYPES and last in ("MAX", "MIN", "BITS"):
+            bits = INT_TYPES[path[-2]]
+            signed = path[-2].startswith("i")
+            if last == "BITS":
+                return bits
+            if last == "MAX":
+                return (1 << (bits - 1)) - 1 if signed else (1 << bits) - 1
+            return -(1 << (bits - 1)) if signed else 0
+        # size_of::<T>()
+        if len(path) >= 2 and path[-2] == "size_of" and last.startswith("<"):
+            take("(")
+            take(")")
+            ty = last[1:-1]
+            if ty not in SIZE_OF:
+                raise Unresolved(f"size_of::<{ty}>() in `{expr}`")
+            return SIZE_OF[ty]
+        # conversions that keep the value: usize::from(x), u64::from(x), NonZeroUsize::new(x), Some(x)
+        if peek() == "(" and (last in ("from", "new", "new_unchecked", "Some", "unwrap", "get") or last in INT_TYPES):
+            take("(")
+            v = addsub()
+            take(")")
+            while peek() == ".":           # .unwrap() / .get()
+                take(".")
+                take()
+                take("(")
+                take(")")
+            return v
+        if peek() == "(":
+            raise Unresolved(f"call of {'::'.join(path)} in `{expr}`")
+        # a named constant, possibly qualified (crate::X, super::X, module::X, Self::X)
+        return self.const(last, fname)
+
+    @staticmethod
+    def tokenize(expr):
+        toks = []
+        i = 0
+        n = len(expr)
+        while i < n:
+            c = expr[i]
+            if c.isspace():
+                i += 1
+                continue
+            m = re.match(r"0x[0-9a-fA-F_]+|0b[01_]+|0o[0-7_]+|[0-9][0-9_]*(\.[0-9_]+)?([eE][+-]?[0-9]+)?", expr[i:])
+            if m and c.isdigit():
+                lit = m.group(0)
+                i += len(lit)
+                # `1.` followed by a method call is not a float; keep simple: a trailing '.' is not consumed
+                suf = re.match(r"_?(u8|u16|u32|u64|usize|i8|i16|i32|i64|isize|f32|f64)\b", expr[i:])
+                ty = None
+                if suf:
+                    ty = suf.group(1)
+                    i += len(suf.group(0))
+                elif expr[i:i + 1] == "." and not re.match(r"\.[A-Za-z_]", expr[i:]):
+                    i += 1                                  # `5.` float literal
+                    lit += ".0"
+                clean = lit.replace("_", "")
+                if clean.startswith(("0x", "0b", "0o")):
+                    v = int(clean, 0)
+                elif "." in clean or "e" in clean.lower() or ty in ("f32", "f64"):
+                    f = float(clean)
+                    v = int(f) if f == int(f) else f
+                else:
+                    v = int(clean)
+                toks.append(v)
+                continue
+            if expr.startswith("::", i):
+                toks.append("::")
+                i += 2
+                continue
+            m = re.match(r"[A-Za-z_][A-Za-z0-9_]*", expr[i:])
+            if m:
+                toks.append(m.group(0))
+                i += len(m.group(0))
+                continue
+            if c in "()+-*/%<>.,":
+                toks.append(c)
+                i += 1
+                continue
+            raise Unresolved(f"cannot evaluate `{expr}` (character {c!r})")
+        return toks
+
+
+# ---- the constants -------------------------------------------------------------------------
+# ("const", NAME, preferred file)                     a named constant
+# ("variant", Enum, Variant, file)                    an explicit enum discriminant
+# ("site", file, regex-with-one-group)                an expression at a code site (group 1 is evaluated)
+SPEC = [
+    ("P_MAX_UDP", ("const", "MAX_UDP_DATAGRAM_PAYLOAD_SIZE", "lib.rs")),
+    ("P_GC_HISTORY", ("const", "GARBAGE_COLLECTED_NODE_HISTORY_SIZE", "lib.rs")),
+    ("P_BLOCK_META_LEN", ("const", "BLOCK_META_LEN", "serialize.rs")),
+    ("P_BLOCK_THRESHOLD", ("const", "BLOCK_THRESHOLD", "delta.rs")),
+    ("P_BLOCK_THRESHOLD_SER", ("site", "delta.rs",
+        r"CompressedStreamWriter::with_block_threshold\(([^;]+?)\);\s*for op in self\.get_operations\(\)")),
+    ("P_MIN_MTU", ("site", "delta.rs", r"pub fn with_mtu\(mtu: usize\) -> Self \{\s*assert!\(mtu >= ([^;]+?)\);")),
+    ("P_MAGIC", ("const", "MAGIC_NUMBER", "message.rs")),
+    ("P_PROTOCOL_VERSION", ("variant", "ProtocolVersion", "V0", "message.rs")),
+    ("P_TAG_SYN", ("variant", "MessageType", "Syn", "message.rs")),
+    ("P_TAG_SYNACK", ("variant", "MessageType", "SynAck", "message.rs")),
+    ("P_TAG_ACK", ("variant", "MessageType", "Ack", "message.rs")),
+    ("P_TAG_BADCLUSTER", ("variant", "MessageType", "BadCluster", "message.rs")),
+    ("P_OP_NODE", ("variant", "DeltaOpTag", "Node", "delta.rs")),
+    ("P_OP_KV", ("variant", "DeltaOpTag", "KeyValue", "delta.rs")),
+    ("P_OP_SETMAX", ("variant", "DeltaOpTag", "SetMaxVersion", "delta.rs")),
+    ("P_ST_SET", ("variant", "DeletionStatusMutation", "Set", "types.rs")),
+    ("P_ST_DELETE", ("variant", "DeletionStatusMutation", "Delete", "types.rs")),
+    ("P_ST_TTL", ("variant", "DeletionStatusMutation", "DeleteAfterTtl", "types.rs")),
+    ("P_GOSSIP_COUNT", ("const", "GOSSIP_COUNT", "server.rs")),
+    ("P_PRIOR_WEIGHT", ("site", "failure_detector.rs", r"\bprior_weight:\s*([^,]+),")),
+    ("P_DECOMPRESS_CAP", ("site", "serialize.rs", r"let mut decompressed_buffer = vec!\[0(?:u8)?; ([^\]]+)\];")),
+    # the header reserve at the two budget computations of lib.rs (a literal or a named constant)
+    ("P_RESERVE_SYNACK", ("site", "lib.rs",
+        r"let delta_mtu =\s*MAX_UDP_DATAGRAM_PAYLOAD_SIZE\s*-\s*([A-Za-z0-9_:]+)\s*-\s*self_digest\.serialized_len\(\);")),
+    ("P_RESERVE_ACK", ("site", "lib.rs",
+        r"&digest,\s*MAX_UDP_DATAGRAM_PAYLOAD_SIZE\s*-\s*([A-Za-z0-9_:]+),\s*&scheduled_for_deletion,")),
 ]
 
-# the header reserve at the two budget computations of lib.rs (a literal or a named constant)
-RESERVES = [
-    ("P_RESERVE_SYNACK", r"let delta_mtu =\s*MAX_UDP_DATAGRAM_PAYLOAD_SIZE\s*-\s*([A-Za-z0-9_]+)\s*-\s*self_digest\.serialized_len\(\);"),
-    ("P_RESERVE_ACK", r"&digest,\s*MAX_UDP_DATAGRAM_PAYLOAD_SIZE\s*-\s*([A-Za-z0-9_]+),\s*&scheduled_for_deletion,"),
-]
+# When the two budget computations are written through one named constant (e.g.
+# `MAX_MESSAGE_BODY_LEN = MAX_UDP_DATAGRAM_PAYLOAD_SIZE - HEADER`), the reserve is the difference.
+RESERVE_ALT = {
+    "P_RESERVE_SYNACK": r"let delta_mtu =\s*([A-Za-z0-9_:]+)\s*-\s*self_digest\.serialized_len\(\);",
+    "P_RESERVE_ACK": r"&digest,\s*([A-Za-z0-9_:]+),\s*&scheduled_for_deletion,",
+}
 
 
 def main():
+    try:
+        sources = all_sources()
+    except OSError as e:
+        print(f"PARAMS-ERROR cannot read {SRC}: {e}")
+        return 2
+    ev = Evaluator(sources)
     vals = {}
     errors = []
-    cache = {}
-
-    def src(name):
-        if name not in cache:
-            with open(os.path.join(SRC, name)) as f:
-                cache[name] = f.read()
-        return cache[name]
-
-    for name, fname, rx in PATTERNS:
+    for name, spec in SPEC:
         try:
-            m = re.search(rx, src(fname))
-        except OSError as e:
-            errors.append(f"{name}: cannot read {fname}: {e}")
-            continue
-        if not m:
-            errors.append(f"{name}: pattern not found in {fname}: {rx}")
-            continue
-        tok = m.group(1)
-        if tok == "u16::MAX":
-            vals[name] = 65535
-        else:
-            vals[name] = clean_int(tok)
-    lib = src("lib.rs")
-    for name, rx in RESERVES:
-        m = re.search(rx, lib)
-        if not m:
-            errors.append(f"{name}: pattern not found in lib.rs: {rx}")
-            continue
-        tok = m.group(1)
-        if re.match(r"^[0-9_]+$", tok):
-            vals[name] = clean_int(tok)
-        else:
-            m2 = re.search(r"const " + re.escape(tok) + r": usize = ([0-9_]+);", lib)
-            if not m2:
-                errors.append(f"{name}: constant {tok} not found in lib.rs")
-                continue
-            vals[name] = clean_int(m2.group(1))
+            if spec[0] == "const":
+                v = ev.const(spec[1], spec[2])
+            elif spec[0] == "variant":
+                v = ev.variant(spec[1], spec[2], spec[3])
+            else:
+                text = sources.get(spec[1])
+                if text is None:
+                    raise Unresolved(f"{spec[1]} not found")
+                v = None
+                last = None
+                # several places may have the shape of the code site (e.g. a field declaration and its
+                # initialiser): the first whose expression evaluates is the one
+                for m in re.finditer(spec[2], text):
+                    try:
+                        v = ev.eval(m.group(1).strip(), spec[1])
+                        break
+                    except Unresolved as e:
+                        last = e
+                if v is None and name in RESERVE_ALT:
+                    for m in re.finditer(RESERVE_ALT[name], text):
+                        try:
+                            v = ev.const("MAX_UDP_DATAGRAM_PAYLOAD_SIZE", "lib.rs") - ev.eval(m.group(1).strip(), spec[1])
+                            break
+                        except Unresolved as e:
+                            last = e
+                if v is None:
+                    raise Unresolved(f"code site not found or not evaluable in {spec[1]}: {spec[2]}" + (f" ({last})" if last else ""))
+            if isinstance(v, float):
+                if v != int(v):
+                    raise Unresolved(f"non-integral value {v}")
+                v = int(v)
+            if v < 0:
+                raise Unresolved(f"negative value {v}")
+            vals[name] = v
+        except Unresolved as e:
+            errors.append(f"{name}: {e}")
     if errors:
         for e in errors:
             print("PARAMS-ERROR " + e)
@@ -110,6 +360,12 @@ def main():
         lines.append(f"Definition {name} : N := {vals[name]}.")
     text = "\n".join(lines) + "\n"
     out = os.path.normpath(OUT)
+    if "--check" in sys.argv:
+        # compare with the committed file without writing (used to test the translator itself)
+        with open(out) as f:
+            same = f.read() == text
+        print("same" if same else "DIFFERENT\n" + text)
+        return 0 if same else 3
     old = None
     if os.path.exists(out):
         with open(out) as f:
